@@ -829,17 +829,17 @@ def cap_case(draw):
 
 @subcheck("C11", "section", shards={"quick": 6, "thorough": 16})
 def s_section(ctx):
-    ctx.given("C11.section", section_case(), n={"quick": 3000, "thorough": 60000})
+    ctx.given("C11.section", section_case(), n={"quick": 2400, "thorough": 60000})
 
 
 @subcheck("C11", "slice", shards={"quick": 5, "thorough": 16})
 def s_slice(ctx):
-    ctx.given("C11.slice", slice_case(), n={"quick": 2000, "thorough": 40000})
+    ctx.given("C11.slice", slice_case(), n={"quick": 1600, "thorough": 40000})
 
 
 @subcheck("C11", "cap", shards={"quick": 5, "thorough": 16})
 def s_cap(ctx):
-    ctx.given("C11.cap", cap_case(), n={"quick": 1800, "thorough": 30000})
+    ctx.given("C11.cap", cap_case(), n={"quick": 1500, "thorough": 30000})
 
 
 REQUIRED_CLASSES["C11"] = [f"code:{c}" for c in (0, 2, 4, 6, 8, 12, 14, 16, 20, 28)] + [
